@@ -114,7 +114,7 @@ func init() {
 	core.Register(&core.Check{
 		ID:    "C11",
 		Level: "exploration",
-		Rule: "exhaustive grid: containers (arrays of num/string/nested/any and strings over ASCII, 2-, 3-, 4-byte characters, combining marks) of length 0..3 (quick) / 0..7 (thorough) x access forms (reads through variable, group, call, any, slice, after reassignment; stores; slices; loops over the container and over indexed loop variables; reads on strings concatenated from an indexed string; errmsg before and after the runtime rewrites it) x every index in [-n-2, n+2] plus fractional, huge, NaN, +-Inf, -0 x (for slices) all ordered pairs and missing bounds; one tiny program per access; " +
+		Rule: "(beside the grid: slices of arrays of composites - fresh outer array, shared elements - judged by the reference interpreter) exhaustive grid: containers (arrays of num/string/nested/any and strings over ASCII, 2-, 3-, 4-byte characters, combining marks) of length 0..3 (quick) / 0..7 (thorough) x access forms (reads through variable, group, call, any, slice, after reassignment; stores; slices; loops over the container and over indexed loop variables; reads on strings concatenated from an indexed string; errmsg before and after the runtime rewrites it) x every index in [-n-2, n+2] plus fractional, huge, NaN, +-Inf, -0 x (for slices) all ordered pairs and missing bounds; one tiny program per access; " +
 			"distinct = distinct (container, form, index/bounds) triples; non-trivial = all of them (each is its own execution)",
 		Assumptions: []string{
 			"an index of magnitude >= 2^63 may panic as 'out of bounds' or as 'not an integer' (the law does not say which; Go's float-to-int conversion is unspecified there)",
